@@ -100,6 +100,11 @@ def merge_cases(tier, seed):
             for ps in range(6):
                 yield {"term": [[kind, shape, 1], ["X", other + (["a"] if shape[0] == "i" else ["i"]), 1]],
                        "names": ["i", "j", "k", "l", "a", "b", "c", "d"], "pseed": ps, "coeff": [1, 1]}
+    # powers of a tensor whose indices occur nowhere else in the term (summed through the power)
+    for ps in range(4):
+        for term in ([["X", ["i", "j"], 2], ["Y", ["k", "k"], 1]], [["V", ["i", "j", "a", "b"], 2]],
+                     [["f", ["i", "a"], 2], ["X", ["j"], 1]], [["X", ["i", "a"], 3], ["X", ["j", "b"], 2]]):
+            yield {"term": term, "names": ["i", "j", "k", "l", "a", "b", "c", "d"], "pseed": ps, "coeff": [1, 2]}
     for _ in range(700 if tier == "quick" else 4000):
         names = rng.sample(OCC, 4) + rng.sample(VIRT, 4)
         base = random_term(rng, names[:3] + names[4:7])
@@ -115,8 +120,25 @@ def merge_check(case):
         return True, "vanishes"
     e0 = Expr(sym, real=True)
     term = e0.terms[0]
-    contracted = list(term.contracted)
-    targets = list(term.target)
+    # summation convention, counted independently on the specification of the term: an index that
+    # occurs exactly once (powers count with their exponent) is a target index
+    from collections import Counter
+    cnt = Counter()
+    seen_deltas = set()
+    for _kind, names_, exp_ in case["term"]:
+        if _kind == "d":
+            # powers / repetitions of one Kronecker delta collapse to the delta itself
+            if frozenset(names_) in seen_deltas:
+                continue
+            seen_deltas.add(frozenset(names_))
+            exp_ = 1
+        for n_ in names_:
+            cnt[n_] += abs(exp_)
+    present = {s for s in sym.atoms(type(idx["i"]))}
+    targets = [idx[n_] for n_, c_ in sorted(cnt.items()) if c_ == 1 and idx[n_] in present]
+    contracted = [idx[n_] for n_, c_ in sorted(cnt.items()) if c_ > 1 and idx[n_] in present]
+    if set(term.target) != set(targets) and set(present) == {idx[n_] for n_ in cnt}:
+        return False, (f"target indices of {term} are {term.target}, the summation convention gives {targets}")
     # random renaming of the contracted indices within their space onto
     # names that are not used as targets
     ren = {}
